@@ -122,12 +122,45 @@ def kswin_seed_case(out: Outcome, rng, seed, xs: list) -> None:
     out.case({"class": "KSWIN", "seed": seed, "n": len(xs)}, nontrivial=any(outs[0]))
 
 
-def stepd_case(out: Outcome, p: dict, xs: list, runners: list) -> None:
+def kswin_seed_across_processes(out: Outcome, seed, xs: list) -> None:
+    """`seed` makes a run repeatable - also from one interpreter to the next (each fresh interpreter has its own string-hash salt, object addresses, ...)"""
+    import json
+    import subprocess
+    import sys
+    from common import REPO
+    code = ("import sys, json; sys.path.insert(0, %r); import warnings; warnings.filterwarnings('ignore')\n"
+            "import frouros.detectors.concept_drift as cd\n"
+            "req = json.loads(sys.stdin.read())\n"
+            "d = cd.KSWIN(config=cd.KSWINConfig(alpha=0.2, seed=req['seed'], min_num_instances=12, num_test_instances=4))\n"
+            "o = []\n"
+            "for x in req['stream']:\n"
+            "    d.update(value=x); o.append(bool(d.drift))\n"
+            "print(json.dumps(o))\n") % str(REPO)
+    outs = []
+    for _ in range(2):
+        r = subprocess.run([sys.executable, "-c", code], input=json.dumps({"seed": seed, "stream": xs}), capture_output=True, text=True, timeout=300)
+        if r.returncode != 0:
+            out.notes.append("fresh-interpreter KSWIN run failed: " + r.stderr[-200:])
+            return
+        outs.append(json.loads(r.stdout))
+    d = cd.KSWIN(config=cd.KSWINConfig(alpha=0.2, seed=seed, min_num_instances=12, num_test_instances=4))
+    here = []
+    for x in xs:
+        d.update(value=x)
+        here.append(bool(d.drift))
+    if not (outs[0] == outs[1] == here):
+        out.violation(f"KSWIN: runs constructed with seed={seed} in different interpreter processes disagree", {"class": "KSWIN", "seed": seed, "stream": xs, "kind": "processes"})
+    out.case({"class": "KSWIN", "seed": seed, "processes": 3}, nontrivial=any(here))
+
+
+def stepd_case(out: Outcome, p: dict, xs: list, runners: list, cast=None) -> None:
     fp = dets.full_params("STEPD", p)
     W, ad, aw = fp["min_num_instances"], fp["alpha_d"], fp["alpha_w"]
     run = dets.Runner("a", "STEPD", p)
     if run.det is None:
         return
+    if cast is not None:
+        run.cast = cast
     fired = False
     full, xs = xs, []
     for k, x in enumerate(full):
@@ -184,6 +217,7 @@ def run(out: Outcome) -> None:
         kswin_sensitive(out, rng, p, gen.real_stream(rng, p["min_num_instances"] + rng.randint(5, 40)), runners)
     for seed in [0, 1, 31, 2**31 - 5] + ([7, 12345] if thorough else []):
         kswin_seed_case(out, rng, seed, gen.real_stream(rng, 80))
+    kswin_seed_across_processes(out, rng.choice([0, 5, 12345]), gen.real_stream(rng, 60))
     for _ in range(3 * n):
         p = gen.rand_params(rng, "STEPD")
         xs = [1 - v for v in gen.bernoulli_stream(rng, rng.randint(10, 300))]
@@ -195,6 +229,15 @@ def run(out: Outcome) -> None:
     for c in (0, 1):
         stepd_case(out, {"min_num_instances": 5}, [c] * 40, runners)
     stepd_case(out, {"min_num_instances": 10}, [1] * 35 + [0] + [1] * 30, runners)
+    # compact NumPy dtypes for the 0/1 accuracy indicators, beyond the range of the dtype (more than 127 / 255 correct predictions)
+    for cast in ("uint8", "int8", "int64"):
+        xs = [1 if rng.random() < 0.93 else 0 for _ in range(rng.randint(420, 600))] + [1 if rng.random() < 0.5 else 0 for _ in range(120)]
+        stepd_case(out, {"min_num_instances": rng.choice([20, 30])}, xs, runners, cast=cast)
+    # tens of thousands of correct predictions before the change (counters beyond 2^15)
+    for _ in range(2 if thorough else 1):
+        n_long = rng.randint(33500, 36000)
+        xs = [1 if rng.random() < 0.985 else 0 for _ in range(n_long)] + [1 if rng.random() < 0.6 else 0 for _ in range(200)]
+        stepd_case(out, {"min_num_instances": 30}, xs, runners)
     corr.compare_batch(out, runners)
 
 
